@@ -1086,7 +1086,7 @@ class Frame:
             # value-preserving conversion of its argument
             self._event(f"method:{attr}", [recv] + list(args), kwargs, e, recv, pure=True)
             return args[0]
-        if attr in TRANSPARENT_METHODS:
+        if attr in TRANSPARENT_METHODS and attr not in self.ev.opaque_methods:
             self._event(f"method:{attr}", [recv] + list(args), kwargs, e, recv, pure=True)
             return recv
         if attr in VALUE_METHODS:
